@@ -65,6 +65,7 @@ class Engine:
         self.stats = Stats()
         self.fresh = itertools.count()
         self.step_limit = step_limit       # counted steps (crate calls + back edges) before a path is cut
+        self.fn_stubs = {}                 # resolved crate function name -> handler (environment stubs keyed by definition)
         self.stubs = {}                    # callee-name regex -> handler(engine, st, name, args) (environment stubs of a harness)
         self.on_path = None
         self.merge_fns = set()             # crate fns explored on a symbolic argument with their paths merged
@@ -673,6 +674,9 @@ class Engine:
                 outs = h(self, st, sname, argv)
                 return self.apply_outcomes(st, fr, dest, retbb, outs, sname)
         target = self.prog.resolve(callee)
+        if target is not None and target in self.fn_stubs:
+            outs = self.fn_stubs[target](self, st, sname, argv)
+            return self.apply_outcomes(st, fr, dest, retbb, outs, sname)
         if target is not None:
             if (target in self.merge_fns or self.is_merge_default(callee, target)) and any(self.has_sym(st, a) for a in argv):
                 outs = self.merged_call(st, target, argv)
